@@ -10,11 +10,15 @@ import (
 	"encoding/binary"
 	"encoding/json"
 	"fmt"
+	"net/http"
+	"net/http/httptest"
 	"os"
 	"os/exec"
 	"path/filepath"
 	"strconv"
+	"strings"
 	"testing"
+	"time"
 
 	"github.com/urfave/cli/v2"
 
@@ -44,6 +48,7 @@ type c10Obs struct {
 	Metaok  bool     `json:"metaok"`
 	Fetch   []string `json:"fetch"`
 	Detail  string   `json:"detail"`
+	Remote  bool     `json:"remote"` // the index files were opened over HTTP
 }
 
 func c10spec(epoch uint64, seed int64) fixture.EpochSpec {
@@ -216,16 +221,71 @@ func TestVerifC10(t *testing.T) {
 	}
 	carOf := map[string]string{"X": A.built.CarPath, "Z": src["C"].built.CarPath}
 	cache := vCache(t)
-	for i, raw := range vt.Cases(t) {
+	// the index files of every source are also reachable over loopback HTTP, one server ("mirror") per source, all with
+	// the same URL paths (/cid, /slot, /sig, /sigexists, /blocktime)
+	mirror := map[string]*httptest.Server{}
+	for name, l := range src {
+		l := l
+		mirror[name] = httptest.NewServer(http.HandlerFunc(func(w http.ResponseWriter, r *http.Request) {
+			kind := strings.TrimPrefix(r.URL.Path, "/")
+			if kind == "gsfa" || l.paths == nil {
+				http.NotFound(w, r)
+				return
+			}
+			fp := c10path(l, kind)
+			f, err := os.Open(fp)
+			if err != nil || fp == "" {
+				http.NotFound(w, r)
+				return
+			}
+			defer f.Close()
+			http.ServeContent(w, r, kind, time.Time{}, f)
+		}))
+		defer mirror[name].Close()
+	}
+	type job struct {
+		c      c10Case
+		remote bool
+	}
+	var jobs []job
+	for _, raw := range vt.Cases(t) {
 		var c c10Case
 		if err := json.Unmarshal(raw, &c); err != nil {
 			t.Fatal(err)
 		}
-		o := c10Obs{c10Case: c, Case: i + 1, Fetch: []string{}}
+		jobs = append(jobs, job{c, false})
+	}
+	// second pass, index files opened over HTTP: the consistent configuration first, then every configuration with at
+	// most one deviating role (the deviating file has the same URL path on another mirror - and, for the field-level
+	// deviations, the same size)
+	for pass := 0; pass < 2; pass++ {
+		for _, j := range jobs {
+			if j.remote || j.c.Mismatches > 1 || (j.c.Mismatches == 0) != (pass == 0) {
+				continue
+			}
+			if os.Getenv("VERIF_C10_E1") != "" {
+				continue // (the remote pass runs with the default epoch labels only)
+			}
+			jobs = append(jobs, job{j.c, true})
+		}
+	}
+	for i, jb := range jobs {
+		c, remote := jb.c, jb.remote
+		o := c10Obs{c10Case: c, Case: i + 1, Fetch: []string{}, Remote: remote}
 		cfgEpoch := label[c.CfgEpoch]
 		cfg := vConfig(cfgEpoch, carOf[c.Car], A.paths, A.gsfaDir)
+		if remote {
+			cfg.Indexes.CidToOffsetAndSize.URI = URI(mirror["A"].URL + "/cid")
+			cfg.Indexes.SlotToCid.URI = URI(mirror["A"].URL + "/slot")
+			cfg.Indexes.SigToCid.URI = URI(mirror["A"].URL + "/sig")
+			cfg.Indexes.SigExists.URI = URI(mirror["A"].URL + "/sigexists")
+			cfg.Indexes.SlotToBlocktime.URI = URI(mirror["A"].URL + "/blocktime")
+		}
 		for role, f := range c.Assign {
 			p := URI(c10path(src[f.Src], f.Kind))
+			if remote && role != "gsfa" && f.Kind != "gsfa" {
+				p = URI(mirror[f.Src].URL + "/" + f.Kind)
+			}
 			switch role {
 			case "cid":
 				cfg.Indexes.CidToOffsetAndSize.URI = p
@@ -288,7 +348,13 @@ func TestVerifC10(t *testing.T) {
 		}); p != "" {
 			o.Outcome, o.Detail = "panic", p
 		}
-		ep.Close()
+		if remote && c.Mismatches == 0 {
+			// the consistently configured remote epoch stays loaded while the deviating remote configurations are tried
+			// (as on a server that serves several epochs from the same mirrors)
+			defer ep.Close()
+		} else {
+			ep.Close()
+		}
 		out.Emit(o)
 	}
 }
